@@ -20,12 +20,14 @@ pub struct Scenario {
     pub key_seeds: Vec<u64>,
     /// forced expiry (search ordinal, read) for clock-limited searches of the prefix
     pub forced: Vec<(u64, u64)>,
+    /// also run the suffix twice on the real binary (two real key draws) and compare
+    pub real_binary: bool,
 }
 
 impl Scenario {
     pub fn to_json(&self) -> Value {
         json!({"prefix": self.prefix, "suffix": self.suffix, "key_seeds": self.key_seeds,
-            "forced": self.forced.iter().map(|(a, b)| json!([a, b])).collect::<Vec<_>>()})
+            "forced": self.forced.iter().map(|(a, b)| json!([a, b])).collect::<Vec<_>>(), "real_binary": self.real_binary})
     }
     pub fn from_json(v: &Value) -> Option<Scenario> {
         let strs = |x: &Value| -> Vec<String> { x.as_array().map(|a| a.iter().map(|s| s.as_str().unwrap_or("").to_string()).collect()).unwrap_or_default() };
@@ -34,6 +36,7 @@ impl Scenario {
             suffix: strs(&v["suffix"]),
             key_seeds: v["key_seeds"].as_array()?.iter().filter_map(|x| x.as_u64()).collect(),
             forced: v["forced"].as_array().map(|a| a.iter().filter_map(|p| Some((p[0].as_u64()?, p[1].as_u64()?))).collect()).unwrap_or_default(),
+            real_binary: v["real_binary"].as_bool().unwrap_or(false),
         })
     }
 }
@@ -175,6 +178,27 @@ pub fn run_scenario(sc: &Scenario) -> Judged {
         s.push("quit".into());
         s
     };
+    // (3) real binary twice: two real key draws, real hasher states
+    if sc.real_binary && j.violations.is_empty() {
+        if let Some(bin) = realbin::real_binary_path() {
+            let input: Vec<u8> = j.real_script.iter().flat_map(|l| format!("{}\n", l).into_bytes()).collect();
+            let a = realbin::run_real(&bin, &input, std::time::Duration::from_secs(60));
+            let b = realbin::run_real(&bin, &input, std::time::Duration::from_secs(60));
+            if let (Ok(a), Ok(b)) = (a, b) {
+                j.probes.add("real_binary_twin_runs", 1);
+                let ta = realbin::normalise_transcript(&a.stdout);
+                let tb = realbin::normalise_transcript(&b.stdout);
+                let sim: Vec<String> = j.sim_suffix_transcript.iter().filter(|l| !l.starts_with("> ")).cloned().collect();
+                // one class for both: these are real executions with real key draws, so which of
+                // the two comparisons fails first is not repeatable
+                if ta != tb {
+                    j.violations.push(("real_binary_disagrees".into(), format!("two runs of the real binary differ: {}", first_diff(&ta, &tb))));
+                } else if ta != sim {
+                    j.violations.push(("real_binary_disagrees".into(), format!("real binary vs simulation: {}", first_diff(&sim, &ta))));
+                }
+            }
+        }
+    }
     j
 }
 
@@ -256,6 +280,7 @@ pub fn generate(seed: u64) -> Scenario {
         suffix,
         key_seeds: vec![rng.next_u64(), rng.next_u64(), rng.next_u64()],
         forced,
+        real_binary: rng.chance(1, 8),
     }
 }
 
@@ -283,6 +308,11 @@ pub fn replay_value(v: &Value) -> Vec<Violation> {
 pub fn shrink_value(v: &Value) -> Vec<Value> {
     let Some(sc) = Scenario::from_json(v) else { return vec![] };
     let mut out = vec![];
+    if sc.real_binary {
+        let mut a = sc.clone();
+        a.real_binary = false;
+        out.push(a.to_json());
+    }
     if !sc.prefix.is_empty() {
         // prefix halves / single lines (forced ordinals are kept aligned by re-counting go lines)
         let recount = |orig: &Scenario, keep: &[usize]| -> Scenario {
@@ -355,41 +385,6 @@ pub fn run(ctx: &Ctx) -> i32 {
         res.faults.add("restart_ucinewgame", (!sc.prefix.is_empty()) as u64);
         res.faults.add("deadline_expired_mid_search", sc.forced.len() as u64);
         res.violations = violations_of(&sc, &j, i, seed);
-        // (3) real binary twice: two real key draws, real hasher states
-        if j.violations.is_empty() && i % 8 == 0 && !j.real_script.is_empty() {
-            if let Some(bin) = &real_bin {
-                let input: Vec<u8> = j.real_script.iter().flat_map(|l| format!("{}\n", l).into_bytes()).collect();
-                let a = realbin::run_real(bin, &input, std::time::Duration::from_secs(60));
-                let b = realbin::run_real(bin, &input, std::time::Duration::from_secs(60));
-                if let (Ok(a), Ok(b)) = (a, b) {
-                    res.probes.add("real_binary_twin_runs", 1);
-                    let ta = realbin::normalise_transcript(&a.stdout);
-                    let tb = realbin::normalise_transcript(&b.stdout);
-                    let sim: Vec<String> = j.sim_suffix_transcript.iter().filter(|l| !l.starts_with("> ")).cloned().collect();
-                    if ta != tb {
-                        res.violations.push(Violation {
-                            prop: "C13".into(),
-                            class: "real_binary_runs_differ".into(),
-                            detail: first_diff(&ta, &tb),
-                            scenario: sc.to_json(),
-                            sim_index: i,
-                            sim_seed: seed,
-                            log_hash: j.log_hash,
-                        });
-                    } else if ta != sim {
-                        res.violations.push(Violation {
-                            prop: "C13".into(),
-                            class: "real_binary_differs_from_simulation".into(),
-                            detail: first_diff(&sim, &ta),
-                            scenario: sc.to_json(),
-                            sim_index: i,
-                            sim_seed: seed,
-                            log_hash: j.log_hash,
-                        });
-                    }
-                }
-            }
-        }
         if i < 3 {
             res.sample = Some(sc.to_json());
         }
